@@ -227,6 +227,10 @@ def run(ctx, selftest=False):
     ctx.sample({"id": traces[0]["id"], "events": traces[0]["events"][:10]})
     verdicts = ctx.validate("StreamsTrace", traces, timeout=3000)
     ctx.judge(traces, verdicts, families=FAMILIES)
+    # one TheJoker under every short HISTORY of calls (spec/History.tla): what a sampling call returns is a function of the seed and
+    # of the sampling calls made before it, in order - never of the marginal-likelihood calls in between
+    from .. import history
+    history.check(ctx, "sampler", {"C10"}, ("C10.", "H."), selftest=selftest, cap=90 if ctx.tier == "quick" else None)
     if selftest or not quick:
         _selftest(ctx, traces)
 
